@@ -41,6 +41,41 @@ hexval(int c)
   return -1;
 }
 
+/* One exact-size encoder allocation per capacity, kept across requests: the
+   sanitizer's allocator needs more than a millisecond for a fresh 260 kB
+   allocation, which would limit the campaign to a few hundred cases per second.
+   The allocation stays exact (encoder_alloc_size(cap) bytes, block at its end),
+   so a write past the block is still an ASan error.  Everything encoder_init()
+   does not set is overwritten with a pattern before each use, so that no case
+   can see data of an earlier one. */
+#define ENC_CACHE 1024
+static struct encoder_state *enc_cache[ENC_CACHE + 1];
+
+static struct encoder_state *
+get_encoder(unsigned long cap)
+{
+  struct encoder_state *e;
+  size_t head = offsetof(struct encoder_state, u);
+  if (cap <= ENC_CACHE && enc_cache[cap] != 0)
+    e = enc_cache[cap];
+  else {
+    e = malloc(encoder_alloc_size(cap));
+    if (cap <= ENC_CACHE)
+      enc_cache[cap] = e;
+  }
+  memset(e, 0xEE, head);
+  /* the block: max_block_size + 1 bytes at the very end of the allocation */
+  memset((uint8_t *)(e->SA + cap + GROUP_SIZE), 0xEE, cap + 1);
+  return e;
+}
+
+static void
+put_encoder(struct encoder_state *e, unsigned long cap)
+{
+  if (cap > ENC_CACHE)
+    free(e);
+}
+
 static void
 do_collect_cmd(char *a_cap, char *a_hex, char *a_sizes)
 {
@@ -79,7 +114,7 @@ do_collect_cmd(char *a_cap, char *a_hex, char *a_sizes)
   }
   if (total != n) { puts("bad-args"); free(input); return; }
 
-  e = malloc(encoder_alloc_size(cap));
+  e = get_encoder(cap);
   encoder_init(e, cap, CLUSTER_FACTOR);
 
   for (i = 0; i < ns && !full; i++) {
@@ -94,7 +129,7 @@ do_collect_cmd(char *a_cap, char *a_hex, char *a_sizes)
     if (!full && left != 0) {
       /* collect() must consume everything unless the block is full */
       printf("anomaly not-full-but-left=%zu\n", left);
-      free(buf); free(e); free(input);
+      free(buf); put_encoder(e, cap); free(input);
       return;
     }
     consumed += sizes[i] - left;
@@ -132,7 +167,7 @@ do_collect_cmd(char *a_cap, char *a_hex, char *a_sizes)
   }
   putchar('\n');
 
-  free(e);
+  put_encoder(e, cap);
   free(input);
 }
 
@@ -142,6 +177,10 @@ main(void)
   char *line = 0;
   size_t cap = 0;
   ssize_t len;
+  /* H_COLLECT_FLUSH=1: flush after every reply, so that after an abort the
+     number of replies identifies the request that caused it (the check
+     re-runs a failed batch in this mode). */
+  int flush_each = getenv("H_COLLECT_FLUSH") != 0;
 
   while ((len = getline(&line, &cap, stdin)) > 0) {
     char *argv[8];
@@ -158,8 +197,15 @@ main(void)
       printf("%zu\n", sizeof(struct encoder_state));
     else
       puts("bad-op");
-    fflush(stdout);
+    if (flush_each)
+      fflush(stdout);
   }
+  fflush(stdout);
   free(line);
+  {
+    size_t i;
+    for (i = 0; i <= ENC_CACHE; i++)
+      free(enc_cache[i]);
+  }
   return 0;
 }
